@@ -4,6 +4,9 @@
            | (4 <C08 event>)                           call / return / error / timer / lost (Model/OpsC08.v)
            | (5 <0 explicit | 1 introspected, parses | 2 introspected, does not parse> <key>)   getRemoteObject
            | (6 <owner> <cb>)  notifyOnDisconnect      | (7 <owner> <cb>)  cancelNotifyOnDisconnect
+           | (8 <Deferred number>)                     the caller cancels the Deferred of a call: its completion
+                                                       is reported as (<number> (6)); completions the call table
+                                                       delivers later for it are not (nobody sees them)
    owner ::= () the connection | (q) the proxy of getRemoteObject request q
    optional 6th argument: ((<cb> (<action> ...)) ...)   what callbacks do when they run during the loss
    action ::= (0 <timeout: () | (n)>) call | (1 <owner> <cb>) register | (2 <owner> <cb>) cancel
@@ -20,7 +23,7 @@
                 requests apart) and expected_runs_reentrant, computed from the snapshot before the event
                 and the one after the connection-level callbacks; every Deferred issued in between
                 must have failed with the reason *)
-From Tx Require Import Lib.Base Lib.Sexp Model.Calls Spec.CallSpec Model.OpsC08 Model.Connect Model.ConnectRe Spec.ConnectSpec.
+From Tx Require Import Lib.Base Lib.Sexp Model.Calls Spec.CallSpec Model.OpsC08 Model.Connect Model.ConnectRe Model.ConnectCancel Spec.ConnectSpec.
 Local Open Scope Z_scope.
 
 Definition akind_of (s : sexp) : option akind :=
@@ -74,10 +77,10 @@ Definition user_call (st : Connect.state) (id : nat) : bool :=
   | S _ => match alist_get Nat.eqb id (st_intro st) with Some _ => false | None => true end
   end.
 
-Definition loss_spec (acts : assignment) (st st' : Connect.state) (e : Connect.event) : sexp :=
+Definition loss_spec (acts : assignment) (canc : list nat) (st st' : Connect.state) (e : Connect.event) : sexp :=
   match e, st_phase st with
   | ECalls (ELost r), Ready =>
-      let b := snap st in
+      let b := view canc (snap st) in
       let m := snap (conn_phase acts (set_open st false) r) in
       let fails := expected_failures r b in
       SList [SNum 1;
@@ -116,15 +119,35 @@ Definition step_mode (mode : Z) (acts : assignment) (st : Connect.state) (e : Co
 
 Definition total_eps (addr : list akind) : nat := endpoint_count addr.
 
-Fixpoint steps (mode : Z) (acts : assignment) (total : nat) (st : Connect.state) (evs : list Connect.event)
-  : list sexp * Connect.state :=
+Definition cevent_of (s : sexp) : option cevent :=
+  match s with
+  | SList [SNum 8; SNum i] => Some (CCancel (Z.to_nat i))
+  | _ => option_map CEv (event_of s)
+  end.
+
+Definition step_c_mode (mode : Z) (acts : assignment) (cs : cstate) (e : cevent) : cstate :=
+  match e with
+  | CEv e => CState (step_mode mode acts (cs_core cs) e) (cs_cancelled cs)
+  | CCancel _ => step_c acts cs e
+  end.
+
+Definition visible (canc : list nat) (st : Connect.state) (l : list (nat * outcome)) : list sexp :=
+  map scompletion (filter (fun x => user_call st (fst x) && not_cancelled canc (fst x)) l).
+
+Fixpoint steps (mode : Z) (acts : assignment) (total : nat) (cs : cstate) (evs : list cevent)
+  : list sexp * cstate :=
   match evs with
-  | [] => ([], st)
-  | e :: r =>
-      let st' := step_mode mode acts st e in
+  | [] => ([], cs)
+  | ce :: r =>
+      let cs' := step_c_mode mode acts cs ce in
+      let st := cs_core cs in
+      let st' := cs_core cs' in
       let newdone := skipn (length (st_done (st_calls st))) (st_done (st_calls st')) in
+      let e := match ce with CEv e => e | CCancel _ => EReg OConn 0 (* no loss spec *) end in
       let obs := SList [ SList (map scres (skipn (length (st_fired st)) (st_fired st')));
-                         SList (map scompletion (filter (fun x => user_call st' (fst x)) newdone));
+                         SList (visible (cs_cancelled cs') st' newdone ++
+                                map (fun i => SList [snat i; SList [SNum 6]])
+                                    (skipn (length (cs_cancelled cs)) (cs_cancelled cs')));
                          SList (map sN (pending_serials (st_calls st')));
                          SList (map sN (timer_serials (st_calls st')));
                          SList (map srun (skipn (length (st_ran st)) (st_ran st')));
@@ -135,26 +158,29 @@ Fixpoint steps (mode : Z) (acts : assignment) (total : nat) (st : Connect.state)
                          | Trying rest => SList [snat (total - rest - 1)]
                          | _ => SList []
                          end;
-                         loss_spec acts st st' e ] in
-      let (l, fin) := steps mode acts total st' r in
+                         match ce with
+                         | CEv _ => loss_spec acts (cs_cancelled cs) st st' e
+                         | CCancel _ => SList [SNum 0]
+                         end ] in
+      let (l, fin) := steps mode acts total cs' r in
       (obs :: l, fin)
   end.
 
 (* the reactor runs every delayed call that is still armed *)
-Definition late_completions (st : Connect.state) : list sexp :=
+Definition late_completions (cs : cstate) : list sexp :=
+  let st := cs_core cs in
   let st' := fold_left (fun s serial => Connect.step s (ECalls (ETimer serial)))
                        (timer_serials (st_calls st)) st in
-  map scompletion (filter (fun x => user_call st' (fst x))
-                          (skipn (length (st_done (st_calls st))) (st_done (st_calls st')))).
+  visible (cs_cancelled cs) st' (skipn (length (st_done (st_calls st))) (st_done (st_calls st'))).
 
 Definition op_with (mode : Z) (addr evs acts : list sexp) (s0 : Z) : sexp :=
-  match map_opt akind_of addr, map_opt event_of evs, map_opt acts_entry_of acts with
+  match map_opt akind_of addr, map_opt cevent_of evs, map_opt acts_entry_of acts with
   | Some addr, Some evs, Some tbl =>
       let s0 := Z.to_N s0 in
-      let (obs, fin) := steps mode (table_assignment tbl) (total_eps addr) (Connect.init addr s0) evs in
+      let (obs, fin) := steps mode (table_assignment tbl) (total_eps addr) (init_c addr s0) evs in
       SList [ SList obs;
-              sopt scres (connect_outcome addr s0 evs);
-              SNum (phase_code (st_phase fin));
+              sopt scres (connect_outcome addr s0 (erase evs));
+              SNum (phase_code (st_phase (cs_core fin)));
               SList (map scres (st_fired (Connect.init addr s0)));
               SList (late_completions fin) ]
   | _, _, _ => bad
